@@ -97,7 +97,7 @@ class Gen:
                 p["ecb"] = rng.choice(self.cb_kinds)
                 p["ccb"] = rng.choice(self.cb_kinds)
                 p["sc"] = [self._script() for _ in range(rng.choice([1, 2, 4]))]
-                if p["fk"] == "sync" and rng.random() < self.fail_rate:
+                if p["fk"] in ("sync", "abc", "part") and rng.random() < self.fail_rate:
                     p["fail"] = sorted(rng.sample(range(12), rng.choice([1, 2])))
                     p["fx"] = rng.randrange(5)
             pools.append(p)
@@ -212,7 +212,7 @@ class Gen:
         if kind == "apply":
             st["num"] = rng.choice([0, 1, 1, 2, 3, 4, 5, 8])
             st["ash"] = rng.choice(ASH)
-            if st["fk"] == "sync" and rng.random() < self.fail_rate and st["num"]:
+            if st["fk"] in ("sync", "abc", "part") and rng.random() < self.fail_rate and st["num"]:
                 st["fail"] = sorted(rng.sample(range(st["num"]), min(st["num"], rng.choice([1, 2]))))
                 st["fx"] = rng.randrange(5)
         else:
@@ -234,7 +234,7 @@ class Gen:
                 st["itk"] = rng.choice([1, 1, 2])     # a re-iterable container with a length (2: a length that is not the element count)
             if kind == "doublestarmap" and rng.random() < 0.2:
                 st["elems"] = [5 if e == 0 else e for e in st["elems"]]     # keyword names like the library's own parameters
-            if st["fk"] == "sync" and rng.random() < self.fail_rate and n:
+            if st["fk"] in ("sync", "abc", "part") and rng.random() < self.fail_rate and n:
                 st["fail"] = sorted(rng.sample(range(n), min(n, rng.choice([1, 2]))))
                 st["fx"] = rng.randrange(5)
         if bad is not None and kind == "apply" and rng.random() < 0.4:
